@@ -2,6 +2,7 @@
 package main
 
 import (
+	"sync"
 	"encoding/json"
 	"fmt"
 	"math/big"
@@ -109,6 +110,51 @@ func run(c *core.Case, st *core.CaseStats, seed int64) {
 			st.Add(core.Mismatch{Fn: c.Fn, Kind: "value", Case: c, Input: in, Expected: "ErrInvalidBase32", Actual: fmt.Sprint(id, err)})
 		} else if !wantErr && err != nil {
 			st.Add(core.Mismatch{Fn: c.Fn, Kind: "value", Case: c, Input: in, Expected: "a value", Actual: fmt.Sprint(err)})
+		}
+	case "strconc":
+		g, cn := core.RawInt(c.A[0]), core.RawInt(c.A[1])
+		set := []string{"a", "€", "中", "😀", "x", "é", "z"}[:cn]
+		in := map[string]interface{}{"goroutines": g, "charset": strings.Join(set, "")}
+		allowed := map[rune]bool{}
+		for _, x := range set {
+			allowed[[]rune(x)[0]] = true
+		}
+		st.Nontrivial++
+		randz.SetStrGeneratorCharSet(strings.Join(set, ""))
+		var wg sync.WaitGroup
+		bad := make([]string, g)
+		for w := 0; w < g; w++ {
+			wg.Add(1)
+			go func(w int) {
+				defer wg.Done()
+				defer func() {
+					if p := recover(); p != nil {
+						bad[w] = fmt.Sprint("panic: ", p)
+					}
+				}()
+				for k := 0; k < 1500 && bad[w] == ""; k++ {
+					n := (k*7 + w) % 41
+					got := randz.String(n)
+					ok := utf8.RuneCountInString(got) == n
+					for _, r := range got {
+						if !allowed[r] {
+							ok = false
+						}
+					}
+					if !ok {
+						bad[w] = fmt.Sprintf("String(%d) = %q", n, got)
+					}
+				}
+			}(w)
+		}
+		wg.Wait()
+		randz.SetStrGeneratorCharSet(randz.CHAR_SET)
+		st.Calls += g * 1500
+		for _, b := range bad {
+			if b != "" {
+				st.Add(core.Mismatch{Fn: c.Fn, Kind: "value", Case: c, Input: in, Expected: "n runes of the character set from every concurrent call", Actual: b})
+				break
+			}
 		}
 	case "idlayout":
 		rb := core.RawInt(c.A[0])
